@@ -98,6 +98,7 @@ type Obs struct {
 	Neg      bool           // rule mode: the `!` rule fired
 	Caps     map[int]string // direct: CaptureField calls (last value per index); rule: non-empty TX.0-9
 	Rule     bool           // rule mode observation
+	Capture  bool           // the evaluation ran with capture on
 }
 
 func (o *Obs) String() string {
@@ -156,16 +157,20 @@ type want struct {
 
 // accept says whether o satisfies w; otherwise reason describes the first mismatch.
 func (w *want) accept(cs *Case, o *Obs) (ok bool, reason string) {
+	return acceptAlts(w.alts, cs.Capture, o)
+}
+
+func acceptAlts(alts []alt, capture bool, o *Obs) (ok bool, reason string) {
 	if o.Panic != "" {
 		return false, "panic"
 	}
 	reason = "verdict"
-	for i := range w.alts {
-		a := &w.alts[i]
+	for i := range alts {
+		a := &alts[i]
 		if a.verdict != o.Res {
 			continue
 		}
-		if !cs.Capture || !o.Res || a.caps == nil {
+		if !capture || !o.Res || a.caps == nil {
 			return true, ""
 		}
 		r := a.caps(o)
@@ -189,39 +194,11 @@ type spec struct {
 // judge compares one observation with the oracle. Returns skip reason,
 // signature ("" = held) and a human text.
 func judge(cs *Case, sp *spec, o *Obs) (skip, sig, what string) {
-	if sp.skipUnit != "" {
-		if o.Panic != "" {
-			return "", "panic:" + cs.Op + ":" + frame(o.Panic), fmt.Sprintf("%s\n  panicked: %s", cs, o.Panic)
-		}
-		return sp.skipUnit, "", ""
+	var w *want
+	if sp.skipUnit == "" {
+		w = sp.wantFn(string(cs.Input), cs.Capture)
 	}
-	w := sp.wantFn(string(cs.Input), cs.Capture)
-	if o.Panic != "" {
-		return "", "panic:" + cs.Op + ":" + frame(o.Panic), fmt.Sprintf("%s\n  panicked: %s", cs, o.Panic)
-	}
-	if w.skip != "" {
-		return w.skip, "", ""
-	}
-	if o.BuildErr != "" {
-		return "", cs.Op + ":constructor-rejects-documented-argument", fmt.Sprintf("%s\n  the operator could not be built: %s\n  expected: %s", cs, o.BuildErr, w.text)
-	}
-	if o.Rule && o.Res == o.Neg {
-		return "", "negation:not-the-complement:" + cs.Op, fmt.Sprintf("%s\n  rule `@%s` fired=%v and rule `!@%s` fired=%v on the same input: `!` is not the complement", cs, cs.Op, o.Res, cs.Op, o.Neg)
-	}
-	ok, reason := w.accept(cs, o)
-	if ok {
-		return "", "", ""
-	}
-	cl := "unclassified:" + cs.String()
-	if w.class != nil {
-		if c := w.class(o, reason); c != "" {
-			cl = c
-		}
-	}
-	if o.Rule {
-		// the same root cause seen through a rule keeps its signature
-	}
-	return "", cl, fmt.Sprintf("%s\n  observed: %s\n  expected: %s\n  mismatch: %s", cs, o, w.text, reason)
+	return judgeWith(cs, sp, w, o)
 }
 
 func frame(p string) string {
